@@ -107,9 +107,10 @@ pub fn write_replay(dir: &str, prop: &'static str, f: &Found, min_trace: &[u32],
     o.push_str(&format!("\"message\":{},\n\"scenario\":{},\n", json::s(&msg), json::s(&r.describe)));
     o.push_str(&format!("\"run_seed\":{},\n\"scenario_index\":{},\n", f.seed, f.index));
     o.push_str(&format!(
-        "\"faults\":{{\"cancel_after_polls\":{},\"panic_at_child_poll\":{}}},\n",
+        "\"faults\":{{\"cancel_after_polls\":{},\"panic_at_child_poll\":{},\"panic_at_closure_call\":{}}},\n",
         f.faults.cancel_after_polls.map(|k| k.to_string()).unwrap_or_else(|| "null".into()),
-        f.faults.panic_at_child_poll
+        f.faults.panic_at_child_poll,
+        f.faults.panic_at_closure_call
     ));
     o.push_str(&format!("\"original_trace_len\":{},\n\"shrink_candidates_tried\":{},\n", f.trace.len(), tried));
     o.push_str(&format!("\"trace\":[{}],\n", min_trace.iter().map(|x| x.to_string()).collect::<Vec<_>>().join(",")));
@@ -148,6 +149,7 @@ pub fn read_replay(path: &str) -> Result<Replay, String> {
             Some(x) => x.as_u64().map(|v| v as u32),
         },
         panic_at_child_poll: fj.get("panic_at_child_poll").and_then(|x| x.as_u64()).unwrap_or(0) as u32,
+        panic_at_closure_call: fj.get("panic_at_closure_call").and_then(|x| x.as_u64()).unwrap_or(0) as u32,
         no_faults: false,
     };
     Ok(Replay {
